@@ -262,7 +262,7 @@ func newWorld(c *simkit.Ctx, cfg config) *world {
 	w.vs = vs
 	w.adv = newAdversary(w)
 	if cfg.byzActive {
-		w.adv.plan = c.T.Pick(3, 2, 2)
+		w.adv.plan = c.T.Pick(3, 2, 2, 2)
 		if w.adv.plan == planStaleHighQC {
 			w.cfg.rootUpdates = true
 			w.cfg.rootRate = 1
